@@ -168,6 +168,8 @@ class Grid3Scales(Grid):
         self.tailLengthInside = tailLengthInside
         self.tailLengthOutside = tailLengthOutside
         self.wallThickness = wallThickness
+        # Keep the attribute inherited from Grid in sync with the wall thickness
+        self.positionFalloff = wallThickness
         self.ratioPointsWall = ratioPointsWall
         self.smoothing = smoothing
         self.wallCenter = wallCenter
